@@ -619,7 +619,7 @@ pub fn run(ctx: &Ctx, rep: &mut Report) {
     rep.prop(
         "listings",
         "proptest: bucket worlds with 0..1100 objects under the requested prefix (final segments incl. & < > quotes, spaces, BMP and astral characters), decoys under sibling prefixes, sizes to 2^64-1, LastModified with 0/3/6 fractional digits and Z / +00:00, pretty or compact XML with or without extra S3 elements, max-keys honoured, IsTruncated true/false, faults; archive::list_files and realtime::list_chunks_in_volume; non-trivial = >= 2 objects with an escaped or non-ASCII key, or any fault / truncation",
-        ctx.tier.pick(8_000, 500_000),
+        ctx.tier.pick(20_000, 500_000),
         move || list_case(max_objects),
         classify_list,
         check_list,
@@ -661,7 +661,7 @@ pub fn run(ctx: &Ctx, rep: &mut Report) {
     rep.prop(
         "downloads",
         "proptest: one stored object (0 B..2 MiB; arbitrary bytes, start-chunk-like or record-like) served with status 200/204/206/403/404/500/503, Last-Modified valid RFC 2822 / absent / garbage, optionally a transfer cut short; archive::download_file and realtime::download_chunk; oracle = exactly one GET for the documented key, bytes unchanged, Last-Modified and identifier propagated, 404 -> not-found error, other status -> error; non-trivial = non-empty object or any non-200 status",
-        ctx.tier.pick(8_000, 500_000),
+        ctx.tier.pick(20_000, 500_000),
         download_case,
         |c| {
             CaseInfo::new(!c.body.bytes().is_empty() || c.status != 200)
